@@ -32,13 +32,13 @@ mod proofs {
         }
     }
 
-    // one symbolic operation; returns nothing, updates the buffer and the reference model (None = NULL)
-    fn step(cb: &mut ColumnBuffer, model: &mut Vec<Option<i64>>) {
+    // one symbolic operation of at most `maxn` rows; updates the buffer and the reference model (None = NULL)
+    fn step(cb: &mut ColumnBuffer, model: &mut [Option<i64>; 16], len: &mut usize, maxn: usize) {
         let n: usize = kani::any();
-        kani::assume(n <= MAXN);
+        kani::assume(n <= maxn);
         if kani::any() {
             cb.push_nulls(n);
-            for _ in 0..n { model.push(None); }
+            for _ in 0..n { model[*len] = None; *len += 1; }
         } else {
             let vals: [i64; MAXN] = kani::any();
             let with_map: bool = kani::any();
@@ -46,47 +46,50 @@ mod proofs {
             cb.push_ints(vals[..n].iter().copied(), if with_map { Some(&map[..]) } else { None });
             for k in 0..n {
                 let present = !with_map || BitVec::is_set(&map[..], k);
-                model.push(if present { Some(vals[k]) } else { None });
+                model[*len] = if present { Some(vals[k]) } else { None };
+                *len += 1;
             }
         }
     }
 
-    fn check(cb: &ColumnBuffer, model: &Vec<Option<i64>>) {
-        assert!(cb.len() == model.len(), "[row-count] number of rows equals the number supplied");
-        for i in 0..model.len() {
-            assert!(null_at(cb, i) == model[i].is_none(), "[null-exactly-where-missing] row is NULL exactly where no value was supplied");
-            if let (TypedBuffer::Int(b), Some(v)) = (&cb.buffer, model[i]) {
-                assert!(b.data[i] == v, "[value-kept] integer value equals what was supplied");
-            }
+    fn check(cb: &ColumnBuffer, model: &[Option<i64>; 16], len: usize) {
+        assert!(cb.len() == len, "[row-count] number of rows equals the number supplied");
+        let i: usize = kani::any();
+        kani::assume(i < len);
+        assert!(null_at(cb, i) == model[i].is_none(), "[null-exactly-where-missing] row is NULL exactly where no value was supplied");
+        if let (TypedBuffer::Int(b), Some(v)) = (&cb.buffer, model[i]) {
+            assert!(b.data[i] == v, "[value-kept] integer value equals what was supplied");
         }
         if let Some(p) = &cb.present {
-            let i: usize = kani::any();
-            kani::assume(i >= cb.len() && i < 64);
-            assert!(!BitVec::is_set(p, i), "[no-stray-bits] no presence bit beyond the last row");
+            let j: usize = kani::any();
+            kani::assume(j >= len && j < 64);
+            assert!(!BitVec::is_set(p, j), "[no-stray-bits] no presence bit beyond the last row");
         }
     }
 
+    // a column first seen after n0 rows (all NULL so far), then one operation
     #[kani::proof]
     #[kani::unwind(11)]
-    fn two_ops_from_null_prefix() {
+    fn null_prefix_then_op() {
         let n0: usize = kani::any();
         kani::assume(n0 <= MAXN);
         let mut cb = ColumnBuffer::null(n0);
-        let mut model: Vec<Option<i64>> = (0..n0).map(|_| None).collect();
-        step(&mut cb, &mut model);
-        step(&mut cb, &mut model);
-        check(&cb, &model);
+        let mut model = [None; 16];
+        let mut len = n0;
+        step(&mut cb, &mut model, &mut len, 3);
+        check(&cb, &model, len);
     }
 
+    // up to 9 rows in a first operation (crossing the byte boundary of the bitmap), then a second operation of <= 2 rows
     #[kani::proof]
     #[kani::unwind(11)]
-    fn three_ops() {
+    fn two_ops() {
         let mut cb = ColumnBuffer::null(0);
-        let mut model: Vec<Option<i64>> = Vec::new();
-        step(&mut cb, &mut model);
-        step(&mut cb, &mut model);
-        step(&mut cb, &mut model);
-        check(&cb, &model);
+        let mut model = [None; 16];
+        let mut len = 0;
+        step(&mut cb, &mut model, &mut len, MAXN);
+        step(&mut cb, &mut model, &mut len, 2);
+        check(&cb, &model, len);
     }
 
     #[kani::proof]
